@@ -38,7 +38,7 @@ ANCHORS = ['profile:EbuildRepositoryProfile.want_manifest_in_directory',
 REQUIRED = ['profile:EbuildRepositoryProfile.want_manifest_in_directory',
             'creates_checked', 'same_loader_cases', 'twin_checked',
             'signed_creates_checked', 'updates_checked', 'profile:ebuild', 'profile:old-ebuild',
-            'fresh_verifications']
+            'fresh_verifications', 'name_taken_cases']
 ASSUMPTIONS = ['top-level directories with sub-directories but no package, and '
                'metadata.xml outside category/package directories, are unconstrained '
                '(U12)']
@@ -49,7 +49,8 @@ PROFILES = ['ebuild', 'old-ebuild', 'ebuild', 'old-ebuild', 'default']
 
 
 def units(tier, seed):
-    return [{'k': 'gen', 'i': i, 'n': PER_UNIT} for i in range(N[tier] // PER_UNIT)]
+    return [{'k': 'gen', 'i': i, 'n': PER_UNIT} for i in range(N[tier] // PER_UNIT)] + \
+        [{'k': 'taken'}]
 
 
 def setup_worker(ctx):
@@ -429,7 +430,57 @@ def judge(ctx, root, case):
             return
 
 
+def exec_taken(ctx, case):
+    """One directory cannot get its Manifest (a listed regular file occupies the
+    name): every *other* directory the profile names still gets one."""
+    from gemato import cli as gcli
+    from vf.checks import c10
+    with common.Scratch('vf-c19t-') as d:
+        root = os.path.join(d, 'repo')
+        c10.build_adopt_tree(root, {'listed': case['listed'], 'name': 'Manifest',
+                                    'stale': False})
+        extra = {'cat/pkg/sub-a/x': b'x', 'cat/zpkg/z-1.ebuild': b'EAPI=8\n',
+                 'cat/zpkg/metadata.xml': b'<z/>\n', 'zcat/qpkg/q-2.ebuild': b'EAPI=8\n',
+                 'aaa/first/f-1.ebuild': b'EAPI=8\n', 'profiles/repo_name': b'r\n'}
+        for pth, data in extra.items():
+            os.makedirs(os.path.dirname(os.path.join(root, pth)), exist_ok=True)
+            with open(os.path.join(root, pth), 'wb') as f:
+                f.write(data)
+        ctx.case(sig=('taken', case['listed'], case['profile'], case['wseed'] % 4),
+                 case=case, klass='taken')
+        ctx.count('name_taken_cases')
+        try:
+            with walkperm.WalkPermuter(case['wseed']):
+                rc = gcli.main(['gemato', 'update', '-p', case['profile'], '--hashes',
+                                'SHA256', root])
+        except SystemExit:
+            rc = 'exit'
+        except Exception as exc:
+            rc = exc
+        if rc != 0:
+            ctx.count('update_failed:taken')
+            return
+        have = set(in_use_dirs(root))
+        want = {'cat', 'cat/zpkg', 'zcat', 'zcat/qpkg', 'aaa', 'aaa/first', 'profiles'}
+        missing = sorted(want - have)
+        if missing:
+            ctx.violation('manifest-missing-in:' + kind_of_dir(missing[0]),
+                          'after update -p %s no Manifest in %r (a regular file listed '
+                          'as %s occupies the name in cat/pkg only)' % (
+                              case['profile'], missing, case['listed']), case)
+
+
+def run_taken(u, ctx):
+    for listed in ('data', 'misc'):
+        for profile in ('ebuild', 'old-ebuild'):
+            for wseed in range(6):
+                exec_taken(ctx, {'kind': 'taken', 'listed': listed, 'profile': profile,
+                                 'wseed': wseed})
+
+
 def run_unit(u, ctx):
+    if u.get('k') == 'taken':
+        return run_taken(u, ctx)
     for j in range(u['n']):
         rng = common.rng_for(ctx.seed, ID, u['i'], j)
         tree, cats = grepo.gen_repo(rng, portable=rng.random() < 0.5,
@@ -464,6 +515,8 @@ def run_unit(u, ctx):
 
 
 def replay(case, ctx):
+    if case.get('kind') == 'taken':
+        return exec_taken(ctx, case)
     with common.Scratch('vf-c19-') as d:
         root = os.path.join(d, 'repo')
         gtree.materialize(case['tree'], root)
